@@ -193,6 +193,10 @@ pub struct CellSpec {
     pub env: Vec<EnvSpec>,
     pub safety: SafetySpec,
     pub ctor: Ctor,
+    /// how the limits object is made: 0 = Constraints::new, 1 = from_degrees, 2 = new() with other
+    /// limits followed by two update_range calls that each change ONE bound per joint
+    #[serde(default)]
+    pub limits_ctor: u8,
 }
 
 impl CellSpec {
@@ -212,7 +216,24 @@ impl CellSpec {
     }
 
     pub fn constraints(&self) -> Option<Constraints> {
-        self.limits.map(|(f, t)| Constraints::new(f, t, self.sorting_weight))
+        self.limits.map(|(f, t)| match self.limits_ctor {
+            1 => {
+                let r: [std::ops::RangeInclusive<f64>; 6] = std::array::from_fn(|j| f[j].to_degrees()..=t[j].to_degrees());
+                let mut c = Constraints::from_degrees(r, self.sorting_weight);
+                // from_degrees converts units itself; pin the exact bounds the scenario states
+                c.update_range(f, t);
+                c
+            }
+            2 => {
+                let other_f: [f64; 6] = std::array::from_fn(|j| f[j] - 0.7);
+                let other_t: [f64; 6] = std::array::from_fn(|j| t[j] + 0.4);
+                let mut c = Constraints::new(other_f, other_t, self.sorting_weight);
+                c.update_range(f, other_t); // lower bounds change, upper bounds stay
+                c.update_range(f, t); // upper bounds change, lower bounds stay
+                c
+            }
+            _ => Constraints::new(f, t, self.sorting_weight),
+        })
     }
 
     /// The underlying kinematic stack, assembled by the harness itself: limits -> base -> tool.
